@@ -533,7 +533,7 @@ ANGLES = st.one_of(st.sampled_from([0.0, 90.0, 45.0, -30.0, 180.0, 270.0]), st.f
 
 @st.composite
 def project_cases(draw):
-    kind = draw(st.sampled_from(["grid2d", "grid2d", "irregular", "grid1d"]))
+    kind = draw(st.sampled_from(["grid2d", "grid2d", "irregular", "grid1d", "grid1d"]))
     case = {"kind": kind, "fns": draw(fn_lists()), "mode": draw(st.sampled_from(MODES)),
             "centre_kind": draw(st.sampled_from(["tuple", "tuple", "tuple", "none", "absent"])),
             "angle_kind": draw(st.sampled_from(["value", "value", "value", "none", "absent"])),
